@@ -300,6 +300,39 @@ def cdda_cases(quick):
             yield {"kind": "cdda", "positions": positions, "tail": r}
 
 
+def cdda_dense_cases(quick):
+    """sheets of 99 one-sector tracks starting at EVERY position of a consecutive range (second and minute carries inside):
+    the listed length of each track is 588 frames whatever its mm:ss:ff looks like"""
+    starts = list(range(0, 4752, 99)) + [269901, 449900 - 99]
+    if quick:
+        starts = starts[:8] + [4455, 269901]
+    for st in starts:
+        yield {"kind": "cdda_dense", "start": st}
+
+
+def check_cdda_dense(case):
+    from smpl_extract.cuesheet import parse_cue_sheet
+    from smpl_extract.cdda.image import CompactDiskAudioImageAdapter
+    p0 = case["start"]
+    tracks = [{"number": i + 1, "title": f"T{i + 1}", "indices": [(1, p0 + i)]} for i in range(99)]
+    lines = [l + "\n" for l in Q.cue_lines("x.bin", tracks)]
+
+    def build():
+        image = CompactDiskAudioImageAdapter.from_bin_cue(Q.VirtualBin(Q.SECTOR * (p0 + 99)), parse_cue_sheet(list(lines)))
+        image.set_routines({"make_safe_names": image.make_safe_names_routine, "make_export_names": image.make_export_names_routine})
+        return image
+    st, image = guarded(build, 30.0)
+    if st != "ok":
+        return False, "open-" + ("raised:" + exc_sig(image) if st == "exc" else "hang"), {"observed": repr(image)[:200]}
+    for i in range(99):
+        exp = [("num_channels", "u32", 2), ("sample_rate", "u32", 44100), ("num_audio_samples", "u32", 588)]
+        st, out = guarded(lambda: tree.ls(image, f"T{i + 1}"), 30.0)
+        r = compare(st, out, exp, f"T{i + 1}")
+        if not r[0]:
+            return r[0], r[1], dict(r[2] or {}, track=i + 1, position=p0 + i)
+    return True, "cdda-dense-ok", None
+
+
 def check_cdda(case):
     pos = case["positions"]
     binlen = Q.SECTOR * (pos[-1] + 2) + case["tail"]
@@ -351,6 +384,8 @@ def run_case(case):
     k = case["kind"]
     if k == "cdda":
         return check_cdda(case)
+    if k == "cdda_dense":
+        return check_cdda_dense(case)
     img, path, exp, hname = {"akai_sample": build_sample, "akai_program": build_program, "roland_sample": build_roland}[k](case)
     def go():
         image = tree.open_image(img)
@@ -384,7 +419,7 @@ class Check(CheckBase):
                    "out-of-domain enumeration bytes and listings over the 300-row cap carry no requirement"]
 
     def shards(self):
-        cases = list(sample_cases(self.quick)) + list(program_cases(self.quick)) + list(cdda_cases(self.quick))
+        cases = list(sample_cases(self.quick)) + list(program_cases(self.quick)) + list(cdda_cases(self.quick)) + list(cdda_dense_cases(self.quick))
         rc = list(roland_cases(self.quick))
         if self.quick:
             rc = rc[::3]
@@ -402,5 +437,5 @@ class Check(CheckBase):
             if not ok and prev is not None:
                 case = dict(case, _prelude=prev)
             prev = {k: v for k, v in case.items() if k != "_prelude"}
-            rep.case(case, ok=ok, klass=f"{case['kind']}:{klass}", nontrivial=bool(case.get("dev")) or case["kind"] == "cdda",
+            rep.case(case, ok=ok, klass=f"{case['kind']}:{klass}", nontrivial=bool(case.get("dev")) or case["kind"] in ("cdda", "cdda_dense"),
                      detail=detail, sig=f"{case['kind']}:{klass}" + (":" + str(detail.get("key")) if detail and "key" in detail else ""))
